@@ -46,6 +46,7 @@ void abtv_event(int kind, const void *obj, const void *who);
 #define ABTV_EV_WAITLIST_BROADCAST 3
 #define ABTV_EV_WAITLIST_TIMEOUT_UNLINK 4
 #define ABTV_EV_WAITLIST_TIMEOUT_WOKEN 5
+#define ABTV_EV_MEM_LOCAL_POOL_ACCESS 6 /* obj: the local memory pool being used */
 
 #else /* !ABT_VERIF_SIM */
 
